@@ -271,6 +271,25 @@ func assignTags(t *rapid.T, d *m.Design) {
 				f.Tag = nums[i]
 				walk(f.Attr)
 			}
+			// the alternatives of a oneof share the name space of the enclosing
+			// message too (goa does not check either: open finding
+			// C10-oneof-alternative-collides-with-message-field)
+			if a.Type.Kind == m.Object {
+				names := map[string]bool{}
+				for _, f := range a.Type.Fields {
+					names[f.Name] = true
+				}
+				for _, f := range a.Type.Fields {
+					if f.Attr != nil && f.Attr.Type != nil && f.Attr.Type.Kind == m.Union {
+						for _, alt := range f.Attr.Type.Fields {
+							for names[alt.Name] {
+								alt.Name = f.Name + "_" + alt.Name
+							}
+							names[alt.Name] = true
+						}
+					}
+				}
+			}
 			// the alternatives of a oneof share the numbering space of the
 			// enclosing message: renumber them after the message's own fields
 			if a.Type.Kind == m.Object {
